@@ -6,12 +6,12 @@
  "mode": "harness",
  "unwind": 2, "unwindset": ["typemember.0:4", "strcmp.0:4"],
  "kind": "bounded",
- "bound": "struct/union with <= 3 members, each named or an anonymous struct/union with <= 2 named members (nesting <= 2); member names and the searched name 1-2 characters; all offsets arbitrary 64-bit",
+ "bound": "struct/union with <= 3 members, each named or an anonymous struct/union with <= 2 named members (nesting <= 2); member names and the searched name 1-2 characters; offsets and the caller's running offset < 2^32",
  "timeout": 200,
  "expects": ["assertion_verif", "unwind"],
  "assumes": ["harness-enforced (typemember is recursive and loops over a linked list; PRE fixes the list shapes up to the bound; --unwind 2 for the recursion, --unwindset typemember.0:4,strcmp.0:4 for the member-list loop and strcmp on 3-byte strings, unwinding assertions on)",
              "strcmp is CBMC's library model",
-             "offsets add modulo 2^64 (no struct is that large: decl.c bounds sizes)"]
+             "offsets < 2^32 (part of the bound): no 64-bit wrap-around is exercised"]
 }
 */
 #include "type.c"
@@ -58,12 +58,15 @@ u64 g_off0;                    /* *offset before the call                       
 	h_im[i][0].next == (g_ni[i] == 2 ? &h_im[i][1] : 0) && \
 	IMP(g_ni[i] == 2, (h_im[i][1].name == h_imn[i][1] && NAMEOK(h_imn[i][1]) && h_im[i][1].offset == g_ioff[i][1] && h_im[i][1].next == 0)))))
 
+#define SMALL (1ull << 32)   /* bound on offsets: keeps the failing (mutant) SAT instances tractable */
 #define PRE(X) \
 	X(t == &h_S && (t->kind == TYPESTRUCT || t->kind == TYPEUNION) && name == h_q && NAMEOK(h_q) && offset != 0) \
 	X(g_nm >= 1 && g_nm <= NM && t->u.structunion.members == &h_m[0]) \
 	X(MEMB_OK(0) && MEMB_OK(1) && MEMB_OK(2)) \
 	X(INNER_OK(0) && INNER_OK(1) && INNER_OK(2)) \
-	X(*offset == g_off0)
+	X(*offset == g_off0 && g_off0 < SMALL) \
+	X(g_off[0] < SMALL && g_off[1] < SMALL && g_off[2] < SMALL) \
+	X(g_ioff[0][0] < SMALL && g_ioff[0][1] < SMALL && g_ioff[1][0] < SMALL && g_ioff[1][1] < SMALL && g_ioff[2][0] < SMALL && g_ioff[2][1] < SMALL)
 
 #define POST(X) \
 	X(HRET == SPEC_M) \
